@@ -29,8 +29,9 @@ type Op struct {
 	K     string      `json:"k"` // W F FB FE LC FC MO MS R | BG (background tick) | MOB (the tick's non-forced merge)
 	Rows  []tsdrv.Row `json:"rows,omitempty"`
 	Level int         `json:"level,omitempty"`
-	Bg    bool        `json:"bg,omitempty"` // a step the background tick (real planner, real schedule) made
-	X     *XRead      `json:"x,omitempty"`  // K = "X": an explicit statement-level read (corpus witnesses)
+	Bg    bool        `json:"bg,omitempty"`  // a step the background tick (real planner, real schedule) made
+	X     *XRead      `json:"x,omitempty"`   // K = "X": an explicit statement-level read (corpus witnesses)
+	Agg   []XAgg      `json:"agg,omitempty"` // aggregate results observed after the op (file-cursor path)
 	// observations after the op
 	Files []tsdrv.File              `json:"files"`
 	Dump  map[string][]tsdrv.OutRow `json:"dump"` // all fields, full range, ascending; key = series
@@ -358,11 +359,13 @@ func runHistory(idx int, work string, nser, nwal int, auto bool, in []Op, qr *ge
 		if op.K == "X" && op.X != nil {
 			c := &xctx{op: i, sh: sh, lww: lww, nser: nser}
 			h.XOracle = append(h.XOracle, c.runRead(*op.X)...)
+			op.Agg = append(op.Agg, c.agg...)
 			h.XReads++
 			h.XKinds[op.X.Kind]++
 		}
 		if xreads && qr.Chance(2, 3) {
-			xf, n := extraReads(i, sh, lww, qr, nser, files, h.XKinds)
+			xf, n, aggs := extraReads(i, sh, lww, qr, nser, files, h.XKinds)
+			op.Agg = append(op.Agg, aggs...)
 			h.XOracle = append(h.XOracle, xf...)
 			h.XReads += n
 		}
